@@ -952,6 +952,13 @@ class EvolveAppTask(BaseEvolutionTask):
                         # hinted for this task's app.
                         pending_mutations = \
                             hinted_evolution.get(batch_task.app_label)
+                    elif batch_task.app_sig_is_new:
+                        # The app is being installed for the first time.
+                        # Its models are created in their final form, and
+                        # its evolutions are only recorded as applied. None
+                        # of their mutations (such as a SQLMutation, which
+                        # isn't bound to a model) must be executed.
+                        pending_mutations = []
                     else:
                         # This is our standard case: An actual evolution from
                         # written evolution files. Generate the set of
